@@ -250,17 +250,24 @@ def rule_strand(ctx, R):
     R.floor("wake_path_pops", n)
 
 
+def expired_fn(ctx):
+    """the registry function that takes the expired clients out: by its recorded name, or -- after
+    a rename -- the one function of the registry that takes an Instant and returns connection ids"""
+    b = ctx.prog.bodies.get(BR + "get_expired_clients")
+    if b is not None:
+        return b
+    c = [fb for fn, fb in sorted(ctx.prog.bodies.items()) if fn.startswith(BR) and fb.kind != "Closure"
+         and any("std::time::Instant" in fb.locals[k] for k in range(1, fb.nargs + 1)) and "Vec<u64>" in fb.locals[0]]
+    if len(c) == 1:
+        return c[0]
+    return ctx.prog.need(BR + "get_expired_clients")
+
+
 def rule_unreg(ctx, R):
     """the waiter handed a wake-up loses ALL its registrations under the same registry lock"""
     b0 = ctx.prog.need(BM + "notify_key_ready")
     # the function and the closures it drives (`registries.get(db).and_then(|r| { pop; unregister })`)
-    bodies = [b0]; seen_c = set(); k_ = 0
-    while k_ < len(bodies):
-        for _, t in bodies[k_].calls():
-            for c in t.get("clos") or []:
-                if c not in seen_c and c in ctx.prog.bodies:
-                    seen_c.add(c); bodies.append(ctx.prog.bodies[c])
-        k_ += 1
+    bodies = shared.closure_tree(ctx, b0)
     npops = 0
     for b in bodies:
         pops = [i for i, t in b.calls() if callee(t) == BR + "pop_first_waiter"]
@@ -281,9 +288,9 @@ def rule_unreg(ctx, R):
                           "the client popped for a wake-up keeps its registrations under its other keys (multi-key BLPOP): they swallow elements pushed to those keys later", b.loc(i))
     R.floor("waiter_pops", npops)
     # timeouts: get_expired_clients removes the client from every key queue it scans and empties
-    g = ctx.prog.need(BR + "get_expired_clients")
-    rm = [i for i, t in g.calls() if re.search(r"VecDeque::<network::blocking::BlockedClient>::(remove|retain|drain|swap_remove_back|swap_remove_front|retain_mut)", t["f"] or "")]
-    it = [i for i, t in g.calls() if re.search(r"HashMap::<std::vec::Vec<u8>, std::collections::VecDeque<network::blocking::BlockedClient>>::(iter_mut|values_mut)", t["f"] or "")]
+    g = expired_fn(ctx)
+    rm = [i for _, i, t in shared.deep_calls(ctx, g) if re.search(r"VecDeque::<network::blocking::BlockedClient>::(remove|retain|drain|swap_remove_back|swap_remove_front|retain_mut)", t["f"] or "")]
+    it = [i for _, i, t in shared.deep_calls(ctx, g) if re.search(r"HashMap::<std::vec::Vec<u8>, std::collections::VecDeque<network::blocking::BlockedClient>>::(iter_mut|values_mut|retain)", t["f"] or "")]
     R.inst(g.fn, "timeout-removal", {"iterates_all_keys": bool(it), "removes_from_queue": bool(rm)})
     if not (rm and it):
         R.finding(g.fn, "timeout-removal:incomplete", "expired clients are not removed from every key queue", g.loc())
@@ -524,14 +531,7 @@ def rule_unreg_all(ctx, R):
     for nm in ("unregister_client",):
         b0 = ctx.prog.need(BR + nm)
         # the function and the closures it drives (`blocked_on_key.retain(|_, clients| { .. })`)
-        bodies = [b0]; seen_c = set()
-        k_ = 0
-        while k_ < len(bodies):
-            for _, t in bodies[k_].calls():
-                for c in t.get("clos") or []:
-                    if c not in seen_c and c in ctx.prog.bodies:
-                        seen_c.add(c); bodies.append(ctx.prog.bodies[c])
-            k_ += 1
+        bodies = shared.closure_tree(ctx, b0)
         allrem = []
         for b in bodies:
             for i, t in b.calls():
@@ -567,7 +567,8 @@ def rule_timeout_scan(ctx, R):
     that are (still) blocked: a cache that is reset after a pass, instead of recomputed, forgets the
     later deadlines and those clients are never answered"""
     b = ctx.prog.need(BM + "process_timeouts")
-    scans = {i for i, t in b.calls() if "get_expired_clients" in callee(t) or (ctx.cg.reach([callee(t)] + list(t.get("clos") or [])) & {f for f in ctx.prog.bodies if f.endswith("::get_expired_clients")})}
+    ex = expired_fn(ctx).fn
+    scans = {i for i, t in b.calls() if callee(t) == ex or ex in ctx.cg.reach([callee(t)] + list(t.get("clos") or []))}
     R.floor("registry_scans_in_timeout_pass", len(scans))
     heads = {h for h, body in cfg.loops(b).items() if body & scans}
     p = cfg.path_avoiding(b, [0], b.exits(), scans | heads)
